@@ -70,7 +70,13 @@ def storedAs (tab : Nat → Content) (c : Bool) (k : Nat) : Option Nat :=
   if c then (tab (tab k).t).c else some (tab k).t
 
 /-- properties of the observed functions (transport `t`, compaction `c`) the convergence argument relies on:
-    they keep the entity (type, id); whether compaction discards depends on the entity only; sizes are positive -/
+    they keep the entity (type, id); whether compaction discards depends on the entity only; sizes are positive.
+    One more assumption is built into the *type* of `tab` rather than being a field: `t` and `c` are FUNCTIONS of the
+    content — compacting / transporting the same event always gives the same event. `synced_same_hash` and
+    `replicas_same_hash` depend on it (two replicas store `storedAs tab c k` for the same `k`). It is a fact about the Go
+    code (e.g. `compactJournalEvent` must serialise the `tags_draft` map in a fixed order), checked by cmd/verif-c20 on the
+    real functions for every generated content (oracles `compaction-not-deterministic`, `transport-not-deterministic`,
+    `stored-content-unpredicted`), together with the fields below (`table-assumption-violated`). -/
 structure TabOK (tab : Nat → Content) (c : Bool) : Prop where
   key : ∀ k f, storedAs tab c k = some f → (tab f).typ = (tab k).typ ∧ (tab f).id = (tab k).id
   tkey : ∀ k, (tab (tab k).t).typ = (tab k).typ ∧ (tab (tab k).t).id = (tab k).id
